@@ -158,6 +158,37 @@ theorem deny_list_refused (srv : Server) (r : Request) (acct : Nat) (d : List Na
     have : d.contains acct = true := by simpa using hd
     simp [hh, blocked, ha, Access.allowed, hd]
 
+/-- the same with an allow list beside the deny list: denied entries take precedence, so an
+account on BOTH lists is refused (the unrepaired code let it in) -/
+theorem deny_list_refused_whatever_is_allowed (srv : Server) (r : Request) (acct : Nat) (d : List Nat) (al : Option (List Nat))
+    (ha : srv.access = some { allow := al, deny := some d }) (hd : acct ∈ d)
+    (hh : r.headerAccount = some acct) : ∀ a, authenticate srv r ≠ .allow a := by
+  intro a
+  unfold authenticate
+  cases hc : r.cred with
+  | none => simp [hh]
+  | malformed => simp [hh]
+  | token s =>
+    have : d.contains acct = true := by simpa using hd
+    cases al with
+    | none => simp [hh, blocked, ha, Access.allowed, hd]
+    | some l => simp [hh, blocked, ha, Access.allowed, hd]
+
+/-- absent from a configured allow list: refused, with or without a deny list -/
+theorem not_on_allow_list_refused_whatever_is_denied (srv : Server) (r : Request) (acct : Nat) (al : List Nat) (d : Option (List Nat))
+    (ha : srv.access = some { allow := some al, deny := d }) (hd : acct ∉ al)
+    (hh : r.headerAccount = some acct) : ∀ a, authenticate srv r ≠ .allow a := by
+  intro a
+  unfold authenticate
+  cases hc : r.cred with
+  | none => simp [hh]
+  | malformed => simp [hh]
+  | token s =>
+    have : al.contains acct = false := by simpa using hd
+    cases d with
+    | none => simp [hh, blocked, ha, Access.allowed, hd]
+    | some l => by_cases hl : acct ∈ l <;> simp [hh, blocked, ha, Access.allowed, hd, hl]
+
 theorem not_on_allow_list_refused (srv : Server) (r : Request) (acct : Nat) (al : List Nat)
     (ha : srv.access = some { allow := some al, deny := none }) (hd : acct ∉ al)
     (hh : r.headerAccount = some acct) : ∀ a, authenticate srv r ≠ .allow a := by
